@@ -31,6 +31,9 @@ type C16Case struct {
 	// UnknownFirst: the file starts with an annotation that names an undeclared class (a non-syntax
 	// annotation warning in front of everything else)
 	UnknownFirst bool `json:"unknownFirst,omitempty"`
+	// Tight: no blank line between the blocks; the code line above each annotation block ends in a
+	// short trailing comment
+	Tight bool `json:"tight,omitempty"`
 }
 
 func init() { register("C16", checkC16) }
@@ -120,6 +123,7 @@ func genC16(t *rapid.T) C16Case {
 	}
 	c.Corrupt = -1
 	c.UnknownFirst = rapid.IntRange(0, 2).Draw(t, "unknownFirst") == 0
+	c.Tight = rapid.IntRange(0, 2).Draw(t, "tightLayout") == 0
 	if rapid.IntRange(0, 2).Draw(t, "withCorruption") == 0 {
 		c.Corrupt = rapid.IntRange(0, len(c.Lines)-1).Draw(t, "corruptLine")
 		txt := c.Lines[c.Corrupt].Text
@@ -165,7 +169,7 @@ func splitAnnotTokens(s string) []string {
 
 // c16File embeds the lines in an otherwise valid file: a preamble declaring every referenced class,
 // then one block per line with the Lua statement the annotation belongs to.
-func c16File(lines []string, kinds []string, unknownFirst bool) (text string, lineOf []int) {
+func c16File(lines []string, kinds []string, unknownFirst bool, tight bool) (text string, lineOf []int) {
 	var b strings.Builder
 	if unknownFirst {
 		b.WriteString("---@type NoSuchCls0\nlocal u0 = nil\nprint(u0)\n\n")
@@ -175,24 +179,34 @@ func c16File(lines []string, kinds []string, unknownFirst bool) (text string, li
 	if unknownFirst {
 		ln += 4
 	}
+	// sep ends every block: a blank line, or (tight) a trailing comment on the last code line and no blank line
+	sep, sepLines := "\n\n", 1
+	if tight {
+		sep, sepLines = " -- done\n", 0
+		b.WriteString("local z0 = 0 -- start\n")
+		ln++
+	}
 	for i, l := range lines {
 		lineOf = append(lineOf, ln)
 		switch kinds[i] {
 		case "type", "alias":
-			fmt.Fprintf(&b, "---%s\nlocal v%d = nil\nprint(v%d)\n\n", l, i, i)
-			ln += 4
+			fmt.Fprintf(&b, "---%s\nlocal v%d = nil\nprint(v%d)%s", l, i, i, sep)
+			ln += 3 + sepLines
 		case "class":
-			fmt.Fprintf(&b, "---%s\nlocal c%d = {}\nprint(c%d)\n\n", l, i, i)
-			ln += 4
+			fmt.Fprintf(&b, "---%s\nlocal c%d = {}\nprint(c%d)%s", l, i, i, sep)
+			ln += 3 + sepLines
 		case "field":
-			fmt.Fprintf(&b, "---@class Own%d\n---%s\nlocal o%d = {}\nprint(o%d)\n\n", i, l, i, i)
+			fmt.Fprintf(&b, "---@class Own%d\n---%s\nlocal o%d = {}\nprint(o%d)%s", i, l, i, i, sep)
 			lineOf[i] = ln + 1
-			ln += 5
+			ln += 4 + sepLines
 		default: // param, return, generic, overload, vararg
-			fmt.Fprintf(&b, "---%s\nlocal function f%d(p1, p2, p3, ...)\n  return p1, p2, p3\nend\nprint(f%d)\n\n", l, i, i)
-			ln += 6
+			fmt.Fprintf(&b, "---%s\nlocal function f%d(p1, p2, p3, ...)\n  return p1, p2, p3\nend\nprint(f%d)%s", l, i, i, sep)
+			ln += 5 + sepLines
 		}
 	}
+	// probe: a last block naming an undeclared class; its "unknown type" warning shows that a block in
+	// this position is read at all
+	b.WriteString("---@type NoSuchCls9\nlocal u9 = nil\nprint(u9)\n")
 	return b.String(), lineOf
 }
 
@@ -258,7 +272,7 @@ func checkC16(c C16Case, env *Env) *Violation {
 		texts = append(texts, l.Text)
 		kinds = append(kinds, l.Kind)
 	}
-	fileText, lineOf := c16File(texts, kinds, c.UnknownFirst)
+	fileText, lineOf := c16File(texts, kinds, c.UnknownFirst, c.Tight)
 	run := func(text string) (diagSet, map[int][]string, *Violation) {
 		req := &proto.Request{Cmd: "session", Files: []proto.File{{Path: "main.lua", Data: []byte(text)}, {Path: "other.lua", Data: []byte("print(1)\n")}},
 			InitOptions: harness.J(harness.AllOn())}
@@ -287,7 +301,12 @@ func checkC16(c C16Case, env *Env) *Violation {
 	if v != nil {
 		return v
 	}
+	probeSeen := false
 	for k := range base {
+		if strings.Contains(k, "NoSuchCls9") {
+			probeSeen = true
+			continue
+		}
 		if c.UnknownFirst && strings.Contains(k, "NoSuchCls0") {
 			continue
 		}
@@ -295,11 +314,17 @@ func checkC16(c C16Case, env *Env) *Violation {
 			return violf("warned", "a file of documented annotation lines gets an annotation warning: %s\n%s", k, fileText)
 		}
 	}
+	if !probeSeen {
+		return violf("block-ignored", "the last annotation block (---@type NoSuchCls9) raises no unknown-type warning: the block was not read (tight layout=%v)\n%s", c.Tight, fileText)
+	}
+	if c.Tight {
+		env.Stats.Class("blocks-directly-below-trailing-comments")
+	}
 	if c.Corrupt >= 0 {
 		texts2 := append([]string{}, texts...)
 		texts2[c.Corrupt] = c.CorruptText
 		// is the corrupted line still a documented line? (corruptions that happen to be valid are don't-care)
-		fileText2, _ := c16File(texts2, kinds, c.UnknownFirst)
+		fileText2, _ := c16File(texts2, kinds, c.UnknownFirst, c.Tight)
 		_, byLine2, v := run(fileText2)
 		if v != nil {
 			return v
